@@ -212,6 +212,9 @@ func RefExecute(env *Env, r *genesis.Rules, parent RefParent, blk RefBlock, now 
 		if !ok {
 			return invalid("tx %d: fee overflows", ti)
 		}
+		if fee > tx.Base.MaxFee {
+			return invalid("tx %d: fee %d exceeds its max fee %d", ti, fee, tx.Base.MaxFee)
+		}
 		balRaw, has := out.Post[balKey]
 		var bal uint64
 		if has {
